@@ -410,13 +410,14 @@ def run(ctx: vlib.Ctx):
         ctx.coqchk()
     scratch = ctx.mkscratch()
     corpus = json.loads((vlib.VERIF / "corpus" / "C01.json").read_text())
-    n_prog = 12 if ctx.quick else 90
-    n_inp = 3 if ctx.quick else 6
+    n_prog = 8 if ctx.quick else 90
+    n_inp = 2 if ctx.quick else 6
     progs = [(c["src"], c.get("specs") or []) for c in corpus]
     for s in G.SEED_PROGRAMS:
         if all(s != p[0] for p in progs):
             progs.append((s, []))
-    while len(progs) < n_prog + len(corpus):
+    n_fixed = len(progs)
+    while len(progs) < n_fixed + n_prog:
         src, used = G.gen_module(ctx.rng)
         progs.append((src, []))
         for u in used:
@@ -427,7 +428,7 @@ def run(ctx: vlib.Ctx):
         for s in specs:
             ctx.count("o:" + s["o"]["k"])
             ctx.count("l:" + s["l"]["k"])
-    ctx.sample({"program": progs[len(corpus) + len(G.SEED_PROGRAMS)][0][len(G.PRELUDE):][:600]})
+    ctx.sample({"program": progs[-1][0][len(G.PRELUDE):][:600]})
     ctx.cov["rule"] = ("generated modules f(a,b,s,l,o) (grammar in harness/props/_c01_gen.py) + seeds; each instrumented "
                        "under the 8 metric subsets with seeding on; distinct = distinct program text")
     workers = min(12, os.cpu_count() or 4)
